@@ -516,7 +516,8 @@ def replace_by_pure_dict(
     replace_fn = lambda x, v: x.replace(v) if hasattr(x, 'replace') else v
   current_flat = dict(to_flat_state(state))
   for kp, v in traversals.flatten_mapping(pure_dict).items():
-    kp = tuple(map(try_convert_int, kp))
+    if kp not in current_flat:
+      kp = tuple(map(try_convert_int, kp))
     if kp not in current_flat:
       raise ValueError(f'key in pure_dict not available in state: {kp}')
     current_flat[kp] = replace_fn(current_flat[kp], v)
